@@ -186,6 +186,17 @@ def bulk_oracle(inp, out):
             if ok and (log is None or log.get("type") != LOG_OF.get(r.get("type"))):
                 v.append(({"class": "log-count", "path": "bulkN", "element": "other"},
                           "element %d (%s) succeeded as %s, the log inserted for it is %s" % (i, el.get("action"), r.get("type"), log)))
+            if el.get("action") == "CREATE_TRANSACTION" and el.get("mode") == "script" and ok:
+                # script mode with request metadata / reference: the script (literal sends) sets no metadata of its own, so what is
+                # committed must carry the request's metadata and reference as supplied — the same `exec` serves posting mode
+                facts["script:request-fields-checked"] += 1
+                want = want_tx(el)
+                for where, got in (("returned transaction", r.get("tx")), ("persisted log", (log or {}).get("tx"))):
+                    if got is None:
+                        continue
+                    for sig, what in check_tx(want, got, where, "bulkN"):
+                        if sig["class"] in ("metadata", "reference"):
+                            v.append((dict(sig, mode="script"), "element %d of %d (script mode): %s" % (i, len(els), what)))
             if log is not None and "tx" in log:   # a script / revert transaction: part of the state the next elements meet
                 for s_, d_, a_, as_ in log["tx"]["postings"]:
                     bal[(s_, as_)] -= int(a_)
